@@ -33,7 +33,13 @@ def num_to_poly(x):
         return Poly.const(x)
     if isinstance(x, float):
         return Poly.const(Fr(repr(x)))
+    if x is None:
+        raise NoneOperand("None used as a number")
     raise Unsupported(f"not a number: {x!r}")
+
+
+class NoneOperand(Unsupported):
+    """None reached an arithmetic / array operation: TypeError in Python and in jax.numpy"""
 
 
 def simplify_scalar(p):
@@ -1107,6 +1113,7 @@ def _ew1(fn):
 REG["jnp.abs"] = _ew1(alg.absval)
 REG["jnp.absolute"] = REG["jnp.abs"]
 REG["jnp.exp"] = _ew1(alg.exp)
+REG["jnp.expm1"] = _ew1(lambda e: alg.exp(e) - 1)
 def _sing1(kind, fn):
     def f(it, a, k, node):
         log_singular(it, node, kind, _arr(a[0]))
